@@ -7,6 +7,7 @@
 #include <carquet/carquet.h>
 #include "reader/reader_internal.h"
 #include <stdio.h>
+#include <fcntl.h>
 #include <stdlib.h>
 #include <string.h>
 #include <unistd.h>
@@ -17,6 +18,8 @@ static int C03;
 
 static carquet_reader_t* open_mode(int mode, const uint8_t* img, size_t n, int verify, carquet_error_t* err) {
     carquet_reader_options_t o; carquet_reader_options_init(&o); o.verify_checksums = verify != 0;
+    if (mode == 3) return carquet_reader_open_buffer(img, n, NULL, err);      /* 3, 4: options omitted (documented as "may be NULL for defaults") */
+    if (mode == 4) return carquet_reader_open(g_path, NULL, err);
     if (mode == 0) return carquet_reader_open_buffer(img, n, &o, err);
     o.use_mmap = mode == 2; return carquet_reader_open(g_path, &o, err);
 }
@@ -203,9 +206,14 @@ static void check_batches(carquet_reader_t* rd, const rfile_t* f, const ref_cold
 }
 
 /* ---- C03 dump ---------------------------------------------------------------------- */
+static void dump_reader(carquet_reader_t* rd, const rfile_t* f, const ref_coldata* cols, const char* fdesc, ref_buf* d);
 static void dump_mode(int mode, int verify, const uint8_t* img, size_t n, const rfile_t* f, const ref_coldata* cols, const char* fdesc, ref_buf* d) {
     carquet_error_t err = CARQUET_ERROR_INIT; carquet_reader_t* rd = open_mode(mode, img, n, verify, &err); char t[128];
     if (!rd) { snprintf(t, sizeof t, "|open failed code=%d|", err.code); ref_buf_put(d, t, strlen(t)); return; }
+    dump_reader(rd, f, cols, fdesc, d); carquet_reader_close(rd);
+}
+static void dump_reader(carquet_reader_t* rd, const rfile_t* f, const ref_coldata* cols, const char* fdesc, ref_buf* d) {
+    carquet_error_t err = CARQUET_ERROR_INIT; char t[128];
     snprintf(t, sizeof t, "|rows=%lld rg=%d cols=%d|", (long long)carquet_reader_num_rows(rd), carquet_reader_num_row_groups(rd), carquet_reader_num_columns(rd)); ref_buf_put(d, t, strlen(t));
     const carquet_schema_t* sc = carquet_reader_schema(rd);
     for (int i = 0; i < carquet_schema_num_elements(sc); i++) { const carquet_schema_node_t* nd = carquet_schema_get_element(sc, i); snprintf(t, sizeof t, "|el%d %s leaf%d t%d r%d tl%d d%d p%d|", i, carquet_schema_node_name(nd), carquet_schema_node_is_leaf(nd), carquet_schema_node_is_leaf(nd) ? (int)carquet_schema_node_physical_type(nd) : -1, (int)carquet_schema_node_repetition(nd), carquet_schema_node_type_length(nd), carquet_schema_node_is_leaf(nd) ? carquet_schema_node_max_def_level(nd) : -1, carquet_schema_node_is_leaf(nd) ? carquet_schema_node_max_rep_level(nd) : -1); ref_buf_put(d, t, strlen(t)); }
@@ -241,20 +249,22 @@ static void dump_mode(int mode, int verify, const uint8_t* img, size_t n, const 
     for (int64_t bs = 1; bs <= f->N + 1; bs++) { static const int P01[] = { 0, 1 }, P10[] = { 1, 0 }; if (f->N > 60 && !(bs == 7 || bs == f->N / 2 || bs == f->N || bs == f->N + 1)) continue; snprintf(t, sizeof t, "|batches bs%lld|", (long long)bs); ref_buf_put(d, t, strlen(t));
         check_batches(rd, f, cols, bs, NULL, 0, false, fdesc, d);
         if (f->ncols >= 2) { check_batches(rd, f, cols, bs, P10, 2, false, fdesc, d); check_batches(rd, f, cols, bs, P01, 2, true, fdesc, d); } }
-    carquet_reader_close(rd);
 }
 
 /* ---- enumeration -------------------------------------------------------------------- */
-static void c02_file(const rfile_t* f, uint64_t key, bool deep) {
+static void c02_file(const rfile_t* f0, uint64_t key, bool deep) {
     if (!mc_next()) return;
+    /* by case key: the I/O path (buffer, stdio, mmap, buffer and path with options omitted), the parquet-mr convention for absent levels, a logical-type annotation */
+    rfile_t fv = *f0; int iomode = (int)(key % 5); fv.absent_levels_bit_packed = (key / 5) & 1; for (int c = 0; c < fv.ncols; c++) fv.logical[c] = (int)((key / 10 + (uint64_t)c) % 7); const rfile_t* f = &fv;
     const char* fd = rf_desc(f); mc_desc("c02:%s", fd); mc_case_key(key); mc_nontrivial();
     ref_buf img; ref_buf_init(&img); static ref_coldata cols[4 * RF_MAXC]; int np = 0;
     if (rf_build(&RA, f, &img, NULL, 0, &np, cols)) mc_harness_error("reference writer failed: %s", fd);
-    uint8_t* x = mc_exact(img.p, img.n); carquet_error_t err = CARQUET_ERROR_INIT;
-    carquet_reader_t* rd = open_mode(0, x, img.n, 1, &err);
+    uint8_t* x = mc_exact(img.p, img.n); carquet_error_t err = CARQUET_ERROR_INIT; if (iomode != 0 && iomode != 3) put_file(x, img.n);
+    carquet_reader_t* rd = open_mode(iomode, x, img.n, 1, &err);
     if (!rd) mc_fail("open.failed", "code %d %s", err.code, err.message);
     else {
-        char fdc[640]; snprintf(fdc, sizeof fdc, "c02:%s", fd);
+        static const char* IOM[] = { "buffer", "stdio", "mmap", "buffer-default-options", "path-default-options" };
+        char fdc[640]; snprintf(fdc, sizeof fdc, "c02:%s;io=%s", fd, IOM[iomode]);
         if (f->ncols == 1) { uint64_t ops = all_histories(rd, 0, 0, &cols[0], fdc); mc_count("transitions", ops); mc_count("states", (uint64_t)(f->N + 1)); if (np > 1) mc_count("files.multi-page", 1); if (deep) explore_states(rd, 0, 0, &cols[0], fdc); }
         else {
             int perms[15][3] = { {0,-1,-1},{1,-1,-1},{2,-1,-1},{0,1,-1},{1,0,-1},{0,2,-1},{2,0,-1},{1,2,-1},{2,1,-1},{0,1,2},{0,2,1},{1,0,2},{1,2,0},{2,0,1},{2,1,0} };
@@ -264,31 +274,56 @@ static void c02_file(const rfile_t* f, uint64_t key, bool deep) {
         }
         carquet_reader_close(rd);
     }
+    if (iomode != 0 && iomode != 3) unlink(g_path);
     free(x); ref_buf_free(&img); ref_arena_free(&RA);
 }
 static void c03_file(const rfile_t* f0, uint64_t key) {
     if (!mc_next()) return;
     /* stages that leave the hybrid forms at their default cycle through all seven forms (RLE runs only, bit-packed groups only, mixed, short runs, zero-length runs, padded groups, single groups) by case key */
-    rfile_t fv = *f0; if (fv.level_form == 0 && fv.index_form == 0) { fv.level_form = (int)(key % REF_H_NFORMS); fv.index_form = (int)((key / REF_H_NFORMS) % REF_H_NFORMS); } const rfile_t* f = &fv;
+    rfile_t fv = *f0; if (fv.level_form == 0 && fv.index_form == 0) { fv.level_form = (int)(key % REF_H_NFORMS); fv.index_form = (int)((key / REF_H_NFORMS) % REF_H_NFORMS); }
+    fv.absent_levels_bit_packed = (key / 49) & 1; for (int c = 0; c < fv.ncols; c++) fv.logical[c] = (int)((key / 98 + (uint64_t)c) % 7);      /* also by key: the parquet-mr convention for absent levels, logical-type annotations */
+    const rfile_t* f = &fv;
     const char* fd = rf_desc(f); mc_desc("c03:%s", fd); mc_case_key(key); mc_nontrivial();
     ref_buf img; ref_buf_init(&img); static ref_coldata cols[4 * RF_MAXC]; int np = 0;
     if (rf_build(&RA, f, &img, NULL, 0, &np, cols)) mc_harness_error("reference writer failed: %s", fd);
     uint8_t* x = mc_exact(img.p, img.n); put_file(x, img.n);
-    ref_buf d[6]; char fdc[640]; snprintf(fdc, sizeof fdc, "c03:%s", fd);
+    ref_buf d[8]; char fdc[640]; snprintf(fdc, sizeof fdc, "c03:%s", fd);
     for (int m = 0; m < 3; m++) for (int v = 0; v < 2; v++) { ref_buf_init(&d[m * 2 + v]); g_polarity = -1; dump_mode(m, v, x, img.n, f, cols, fdc, &d[m * 2 + v]); }
-    static const char* MN[] = { "buffer", "fread", "mmap" };
-    for (int i = 1; i < 6; i++) if (d[i].n != d[0].n || memcmp(d[i].p, d[0].p, d[0].n)) {
+    for (int m = 3; m < 5; m++) { ref_buf_init(&d[m + 3]); g_polarity = -1; dump_mode(m, 1, x, img.n, f, cols, fdc, &d[m + 3]); }
+    static const char* MN[] = { "buffer", "fread", "mmap", "buffer-default-options", "path-default-options" };
+    for (int i = 1; i < 8; i++) if (d[i].n != d[0].n || memcmp(d[i].p, d[0].p, d[0].n)) {
         size_t k = 0; while (k < d[0].n && k < d[i].n && d[0].p[k] == d[i].p[k]) k++;
         size_t tag = k; while (tag > 0 && d[0].p[tag] != '|') tag--; size_t tag0 = tag; while (tag0 > 0 && d[0].p[tag0 - 1] != '|') tag0--;
         char lbl[80]; size_t L = tag - tag0 < 79 ? tag - tag0 : 79; memcpy(lbl, d[0].p + tag0, L); lbl[L] = 0;
-        char key2[128]; snprintf(key2, sizeof key2, "modes-differ.%s-vs-buffer.%s", MN[i / 2], strstr(lbl, "b@") ? "batch-reader" : strstr(lbl, "read(") ? "column-reader" : "metadata");
-        mc_fail(key2, "%s(verify=%d) differs from buffer(verify=0) at dump offset %zu near [%s]: %s vs %s", MN[i / 2], i & 1, k, lbl, mc_hex(d[i].p + (k > 8 ? k - 8 : 0), d[i].n - (k > 8 ? k - 8 : 0), 24), mc_hex(d[0].p + (k > 8 ? k - 8 : 0), d[0].n - (k > 8 ? k - 8 : 0), 24));
+        char key2[128]; snprintf(key2, sizeof key2, "modes-differ.%s-vs-buffer.%s", MN[i < 6 ? i / 2 : i - 3], strstr(lbl, "b@") ? "batch-reader" : strstr(lbl, "read(") ? "column-reader" : "metadata");
+        mc_fail(key2, "%s(verify=%d) differs from buffer(verify=0) at dump offset %zu near [%s]: %s vs %s", MN[i < 6 ? i / 2 : i - 3], i < 6 ? (i & 1) : 1, k, lbl, mc_hex(d[i].p + (k > 8 ? k - 8 : 0), d[i].n - (k > 8 ? k - 8 : 0), 24), mc_hex(d[0].p + (k > 8 ? k - 8 : 0), d[0].n - (k > 8 ? k - 8 : 0), 24));
         break;
     }
-    for (int i = 0; i < 6; i++) ref_buf_free(&d[i]);
+    for (int i = 0; i < 8; i++) ref_buf_free(&d[i]);
     unlink(g_path); free(x); ref_buf_free(&img); ref_arena_free(&RA);
 }
 
+/* two readers on the same file alive at the same time, in every ordered pair of I/O paths: the second is read after the first has been closed */
+static void c03_two_readers(const rfile_t* f, uint64_t key) {
+    if (!mc_next()) return;
+    const char* fd = rf_desc(f); mc_desc("c03:two-readers:%s", fd); mc_case_key(key); mc_nontrivial();
+    ref_buf img; ref_buf_init(&img); static ref_coldata cols[4 * RF_MAXC]; int np = 0; if (rf_build(&RA, f, &img, NULL, 0, &np, cols)) mc_harness_error("reference writer failed: %s", fd);
+    uint8_t* x = mc_exact(img.p, img.n); put_file(x, img.n); char fdc[640]; snprintf(fdc, sizeof fdc, "c03:two-readers:%s", fd);
+    ref_buf base; ref_buf_init(&base); g_polarity = -1; dump_mode(0, 1, x, img.n, f, cols, fdc, &base); static const char* MN[] = { "buffer", "fread", "mmap" };
+    int fds_before = 0; for (int q = 0; q < 256; q++) if (fcntl(q, F_GETFD) != -1) fds_before++;
+    for (int m1 = 0; m1 < 3; m1++) for (int m2 = 0; m2 < 3; m2++) for (int order = 0; order < 2; order++) {
+        carquet_error_t e1 = CARQUET_ERROR_INIT, e2 = CARQUET_ERROR_INIT; carquet_reader_t* r1 = open_mode(m1, x, img.n, 1, &e1); carquet_reader_t* r2 = open_mode(m2, x, img.n, 1, &e2);
+        if (!r1 || !r2) { mc_fail("two-readers.open-failed", "%s: %s then %s", fdc, MN[m1], MN[m2]); if (r1) carquet_reader_close(r1); if (r2) carquet_reader_close(r2); continue; }
+        ref_buf d; ref_buf_init(&d); g_polarity = -1;
+        if (order == 0) { carquet_reader_close(r1); dump_reader(r2, f, cols, fdc, &d); carquet_reader_close(r2); }      /* close the first, then use the second */
+        else { ref_buf d1; ref_buf_init(&d1); dump_reader(r1, f, cols, fdc, &d1); g_polarity = -1; dump_reader(r2, f, cols, fdc, &d); carquet_reader_close(r2); carquet_reader_close(r1); if (d1.n != base.n || memcmp(d1.p, base.p, base.n)) { char k2[96]; snprintf(k2, sizeof k2, "two-readers.first-differs.%s-with-%s", MN[m1], MN[m2]); mc_fail(k2, "%s", fdc); } ref_buf_free(&d1); }
+        if (d.n != base.n || memcmp(d.p, base.p, base.n)) { char k2[96]; snprintf(k2, sizeof k2, "two-readers.second-differs.%s-after-%s-%s", MN[m2], MN[m1], order ? "was-read" : "was-closed"); mc_fail(k2, "%s: the %s reader opened while a %s reader was alive delivers different content (dump %zu vs %zu bytes)", fdc, MN[m2], MN[m1], d.n, base.n); }
+        ref_buf_free(&d);
+    }
+    int fds_after = 0; for (int q = 0; q < 256; q++) if (fcntl(q, F_GETFD) != -1) fds_after++;
+    if (fds_after != fds_before) mc_fail("two-readers.descriptors", "%s: %d descriptors open before, %d after all readers were closed", fdc, fds_before, fds_after);
+    ref_buf_free(&base); unlink(g_path); free(x); ref_buf_free(&img); ref_arena_free(&RA);
+}
 static void set_pages(rfile_t* f, int c, int N, uint32_t comp) { int parts[64]; int np = N > 0 ? mc_composition(N, comp, parts) : 0; f->npages[c] = np; for (int i = 0; i < np && i < 8; i++) f->page_levels[c][i] = parts[i]; }
 static int popc(uint32_t x) { return __builtin_popcount(x); }
 
@@ -320,9 +355,10 @@ static void enumerate(void) {
               if (!mc_next()) continue;
               const char* fd = rf_desc(&f); mc_desc("c02x:%s", fd); mc_case_key(mc_mix(0xc02b, ((uint64_t)t << 40) | ((uint64_t)opt << 39) | ((uint64_t)ni << 32) | ((uint64_t)cd << 16) | ((uint64_t)enc << 8) | (uint64_t)pgs)); mc_nontrivial();
               ref_buf img; ref_buf_init(&img); static ref_coldata cols[RF_MAXC]; int np = 0; if (rf_build(&RA, &f, &img, NULL, 0, &np, cols)) mc_harness_error("reference writer failed");
-              uint8_t* x = mc_exact(img.p, img.n); carquet_error_t err = CARQUET_ERROR_INIT; carquet_reader_t* rd = open_mode(0, x, img.n, 1, &err);
-              if (!rd) mc_fail("open.failed", "code %d %s", err.code, err.message); else { char fdc[640]; snprintf(fdc, sizeof fdc, "c02x:%s", fd); explore_states(rd, 0, 0, &cols[0], fdc); carquet_reader_close(rd); }
-              free(x); ref_buf_free(&img); ref_arena_free(&RA);
+              uint8_t* x = mc_exact(img.p, img.n); put_file(x, img.n);
+              for (int io = 0; io < 3; io++) { carquet_error_t err = CARQUET_ERROR_INIT; carquet_reader_t* rd = open_mode(io, x, img.n, 1, &err);
+                  if (!rd) mc_fail("open.failed", "code %d %s", err.code, err.message); else { char fdc[640]; snprintf(fdc, sizeof fdc, "c02x:%s;io=%d", fd, io); explore_states(rd, 0, 0, &cols[0], fdc); carquet_reader_close(rd); } }
+              unlink(g_path); free(x); ref_buf_free(&img); ref_arena_free(&RA);
           } }
         /* pages with 2^15 / 2^16 and more values followed by further pages, consumed through a fixed menu of histories (one call for the
          * whole chunk, calls ending at / one short of / one past the page boundary, blocks of 4096 and 30000, skips over the boundary) */
@@ -398,6 +434,21 @@ static void enumerate(void) {
           f.col[0].ptype = PT_BYTE_ARRAY; f.col[0].opt = 1; f.mask[0] = 0x12; f.enc[0] = enc ? ENC_RLE_DICT : ENC_PLAIN; f.npages[0] = 2; f.page_levels[0][0] = 4; f.page_levels[0][1] = 2; f.page_stats[0] = &ls[li];
           f.col[1].ptype = PT_INT64; f.page_stats[1] = &ls[li];
           c03_file(&f, mc_mix(0xc03d, ((uint64_t)li << 16) | ((uint64_t)cd << 8) | (uint64_t)enc));
+      } }
+    /* pages that decompress to more bytes than the whole file holds (constant columns), with real matches in the Snappy and LZ4 streams */
+    mc_stage("c03.highly-compressible-pages");
+    { static const int CD[] = { CODEC_SNAPPY, CODEC_GZIP, CODEC_ZSTD, CODEC_LZ4_RAW };
+      for (int t = 0; t < 3; t++) for (int cd = 0; cd < 4; cd++) for (int pgs = 1; pgs <= 3; pgs += 2) for (int opt = 0; opt < 2; opt++) {
+          memset(&f, 0, sizeof f); f.ncols = 2; f.N = 5000; f.nrg = 1; f.codec = CD[cd]; f.crc = true; f.dict_offset_present = true; f.pattern = 10 + t;
+          f.col[0].ptype = t == 0 ? PT_INT32 : t == 1 ? PT_INT64 : PT_FLBA; f.col[0].tlen = t == 2 ? 12 : 0; f.col[0].opt = opt; f.mask[0] = opt ? 0x8000000000000001ull : 0; f.uniform_page[0] = pgs == 1 ? 0 : 1700; f.col[1].ptype = PT_DOUBLE;
+          ref_compress_form = 2; c03_file(&f, mc_mix(0xc03e, ((uint64_t)t << 16) | ((uint64_t)cd << 8) | ((uint64_t)pgs << 1) | (uint64_t)opt)); ref_compress_form = 0;
+      } }
+    mc_stage("c03.two-readers-alive.every-pair-of-paths");
+    { static const int CD[] = { CODEC_NONE, CODEC_SNAPPY };
+      for (int cd = 0; cd < 2; cd++) for (int enc = 0; enc < 2; enc++) for (int big = 0; big < 2; big++) {
+          memset(&f, 0, sizeof f); f.ncols = 2; f.N = big ? 3000 : 9; f.nrg = big ? 1 : 2; f.codec = CD[cd]; f.crc = true; f.dict_offset_present = true; f.pattern = enc ? 0 : 3;
+          f.col[0].ptype = PT_INT64; f.enc[0] = ENC_PLAIN; f.uniform_page[0] = big ? 700 : 4; f.col[1].ptype = PT_BYTE_ARRAY; f.col[1].opt = 1; f.mask[1] = 0x1248; f.enc[1] = enc ? ENC_RLE_DICT : ENC_PLAIN; f.uniform_page[1] = big ? 1000 : 5;
+          c03_two_readers(&f, mc_mix(0xc03f, ((uint64_t)cd << 8) | ((uint64_t)enc << 1) | (uint64_t)big));
       } }
     mc_stage("c03.files-without-row-groups");
     for (int nc = 1; nc <= 4; nc++) for (int tf = 0; tf < 4; tf++) for (int kv = 0; kv < 2; kv++) {
